@@ -291,6 +291,21 @@ func c03R5(a *A, r *Roles) {
 				// origin must be an unsigned little-endian read of the header/body
 				oc, isCall := org.(*ssa.Call)
 				okOrg := isCall && oc.Common().StaticCallee() != nil && (oc.Common().StaticCallee().Name() == "Uint32" || oc.Common().StaticCallee().Name() == "Uint64")
+				if isCall && !okOrg {
+					// an in-package reader helper: its own result chain must be an unsigned read, and its conversions count too
+					if cal := oc.Common().StaticCallee(); cal != nil && cal.Pkg == w.Repl && cal.Blocks != nil {
+						okOrg = true
+						for _, r2 := range returnsOf(cal) {
+							cs2, org2 := convsBack(r2.Results[0])
+							checkConvs(meth+"/"+cal.Name(), cs2)
+							c2, isC2 := org2.(*ssa.Call)
+							if !(isC2 && c2.Common().StaticCallee() != nil && c2.Common().StaticCallee().Pkg != nil && c2.Common().StaticCallee().Pkg.Pkg.Path() == "encoding/binary" &&
+								(c2.Common().StaticCallee().Name() == "Uint32" || c2.Common().StaticCallee().Name() == "Uint64")) {
+								okOrg = false
+							}
+						}
+					}
+				}
 				a.check(okOrg, rule, "origin@"+meth, w.posOf(ret), "offset read as an unsigned integer", "offset derives from "+describe(org)+", not an unsigned read")
 			}
 		}
